@@ -346,6 +346,22 @@ func (e *c08Env) gen1Phase(steps int) {
 			}
 		case x < 62:
 			e.blockStep()
+		case x < 70:
+			// somebody funds the reserve while generation-1 lend auctions are open (the handler then looks for
+			// auctions the reserve can settle and re-opens their borrows)
+			pre := e.snap()
+			funder := e.c.Accts[5]
+			a := e.u.Assets[e.u.Order[e.rnd.Intn(len(e.u.Order))]]
+			amt := sdk.NewInt(int64(2 + e.rnd.Intn(50_000_000)))
+			res, _ := e.deliver(funder, lendtypes.NewMsgFundReserveAccounts(a.ID, funder.Addr.String(), sdk.NewCoin(a.Denom, amt)))
+			cls := "no-gen1-auction-open"
+			if len(e.gen1LendAuctions()) > 0 {
+				cls = "gen1-auction-open"
+			}
+			e.finishTx(pre, "fund-reserve", cls, res, fmt.Sprintf("%s funds the reserve with %s%s (%s)", funder.Name, amt, a.Denom, cls))
+			if res.OK() {
+				e.rec.Count("fund_reserve_in_gen1_phase_"+cls, 1)
+			}
 		default:
 			e.txStep()
 		}
